@@ -8,6 +8,6 @@ CONSTANTS
   OldDelete = FALSE
   StepGuard = TRUE
   NilGuard = TRUE
-  WithClose = TRUE
+  WithClose = FALSE
   defaultInitValue = 0
 INVARIANTS NoConflict NoConflict_ingesters NoConflict_cancels NoConflict_state NoConflict_report NoNilCancel StepNotStuck LockDiscipline
